@@ -8,6 +8,7 @@ import GrmVerif.Drive.C12
 import GrmVerif.Drive.C20
 import GrmVerif.Drive.C18
 import GrmVerif.Drive.C15
+import GrmVerif.Drive.C10
 /-! `gvdriver`: one request per line `<prop> <case-id> <nat>…`; replies are prefixed with the case id. -/
 open GrmVerif.Drive
 
@@ -23,6 +24,7 @@ def dispatch (prop : String) (args : List Nat) : String :=
   | "C20" => C20.handle args
   | "C18" => C18.handle args
   | "C15" => C15.handle args
+  | "C10" => C10.handle args
   | _ => "bad-prop"
 
 def prefixLines (id : String) (s : String) : String :=
